@@ -162,7 +162,11 @@ def o152(ctx):
     upd = protocol(ctx, it, r, q)
     il = [e for e in it.events if e.kind == "call" and e.name == "cryocat.ioutils.indices_load"]
     dl = [e for e in it.events if e.kind == "call" and e.name == "numpy.delete"]
-    if not il or not dl or not upd:
+    # the same selection written with a keep mask: keep = ones(n, bool); keep[indices] = False; stack[keep, :, :]
+    kidx = data_index(to_term(upd[-1].args[1])) if upd else None
+    keep_mask = (kidx is not None and len(kidx) == 3 and kidx[1] == FULL and kidx[2] == FULL and kidx[0].op == "ite"
+                 and tm.cval(kidx[0].args[1]) is False and tm.cval(kidx[0].args[2]) is True)
+    if not il or not (dl or keep_mask) or not upd:
         raise Unsupported("remove_tilts structure not recognised", fn)
     for e_ in il:  # every path that loads the indices (file and list / array input alike)
         nf = e_.kwargs.get("numbered_from_1", e_.arg(1))
@@ -174,12 +178,19 @@ def o152(ctx):
         ctx.count(1)
         if a0 is None or a0 != sym("idx"):
             ctx.finding(q, e_.node, "the caller's indices must reach indices_load as given", e_.node, m, extracted=tm.show(a0)[:80] if a0 is not None else None)
-    ax = dl[0].kwargs.get("axis", dl[0].arg(2))
     ctx.count(1)
-    ok = ax is not None and is_pyconst(ax) and pyval(ax) == 0 and to_term(dl[0].arg(0)) == sym("stack") \
-        and tm.has_call(to_term(dl[0].arg(1)), "cryocat.ioutils.indices_load")
-    if not ok or not tm.has_call(to_term(upd[-1].args[1]), "numpy.delete"):
-        ctx.finding(q, dl[0].node, "the listed tilts must be deleted along axis 0 of the stack, all others kept in order", dl[0].node, m)
+    if dl:
+        ax = dl[0].kwargs.get("axis", dl[0].arg(2))
+        ok = ax is not None and is_pyconst(ax) and pyval(ax) == 0 and to_term(dl[0].arg(0)) == sym("stack") \
+            and tm.has_call(to_term(dl[0].arg(1)), "cryocat.ioutils.indices_load")
+        if not ok or not tm.has_call(to_term(upd[-1].args[1]), "numpy.delete"):
+            ctx.finding(q, dl[0].node, "the listed tilts must be deleted along axis 0 of the stack, all others kept in order", dl[0].node, m)
+    else:
+        # all-True flags with exactly the loaded indices cleared, applied to axis 0
+        cleared = kidx[0].args[0]
+        if not (cleared.op == "call" and cleared.args[0] == "cryocat.ioutils.indices_load"):
+            ctx.finding(q, upd[-1].node, "the listed tilts (and only those) must be dropped along axis 0 of the stack, all others kept in "
+                        "order", upd[-1].node, m, extracted=tm.show(kidx[0])[:120])
     # indices_load: minus one iff numbered_from_1, on a copy
     q2 = "ioutils.indices_load"
     m2, fn2 = ctx.prog.func(q2)
@@ -275,6 +286,38 @@ def o153(ctx):
                                     w.node, m)
                 if len(wr) != 2:
                     ctx.finding(q, fn, "both halves must be written when a prefix is given", fn, m)
+    elif not loops and not apps:
+        # the same split written with stepped slices: stack[0::2] / stack[1::2] on the tilt axis
+        def half(t):
+            idx = data_index(t)
+            if idx is None and t.op == "call" and t.args[0] == "getitem" and t.args[1] == sym("stack") and slice_bounds(t.args[2]):
+                idx = [t.args[2], FULL, FULL]
+            if idx is None or len(idx) != 3 or idx[1] != FULL or idx[2] != FULL or slice_bounds(idx[0]) is None:
+                return None
+            lo, hi, step = (tm.cval(x) for x in slice_bounds(idx[0]))
+            if step != 2 or hi is not None or lo not in (None, 0, 1) or isinstance(lo, bool):
+                return None
+            return "odd" if lo == 1 else "even"
+
+        wr = [e for e in it.events if e.kind == "call" and e.name.endswith("TiltStack.write_out")]
+        co = [e for e in it.events if e.kind == "call" and e.name.endswith("TiltStack.correct_order")]
+        halves = [half(to_term(e.args[-1])) if e.args else None for e in co]
+        ctx.count(3, {"halves returned": halves})
+        if len(co) != 2 or None in halves:
+            raise Unsupported("even/odd split idiom not recognised", fn)
+        ret_ = [to_term(x) for x in r.ret.items] if isinstance(r.ret, Seq) else []
+        if halves != ["even", "odd"] or len(ret_) != 2 or any(not tm.contains(ret_[k_], lambda n, k_=k_: n == to_term(co[k_].args[-1])) for k_ in range(2)):
+            ctx.finding(q, co[0].node, "even tilt indices (0, 2, 4, ...) must go to the first returned half and odd ones to the second: "
+                        "every tilt in exactly one half", co[0].node, m, halves=halves)
+        for w in wr:
+            nm = tm.show(to_term(w.arg(0)))
+            nd = w.kwargs.get("new_data")
+            want = "even" if "_even" in nm else "odd" if "_odd" in nm else None
+            ctx.count(1)
+            if want is None or nd is None or half(to_term(nd)) != want:
+                ctx.finding(q, w.node, "the even half must be written to <prefix>_even.mrc and the odd half to <prefix>_odd.mrc", w.node, m)
+        if len(wr) != 2:
+            ctx.finding(q, fn, "both halves must be written when a prefix is given", fn, m)
     else:
         raise Unsupported("even/odd split idiom not recognised", fn)
     ctor = [e for e in it.events if e.kind == "call" and e.name == "cryocat.tiltstack.TiltStack"]
